@@ -258,7 +258,10 @@ def b_native(B):
         ok = ok and np.array_equal(h["sample_shift"], ws) and np.array_equal(h["adc"], wa)
         B.case(("trace_header", str(v), nsh), bool(ok), detail="canonical layout: sites not distinct / x,y not on grid / adc table")
     rng = np.random.default_rng(B.seed)
-    bad = native_geometry(rng, 2 if B.tier == "quick" else 20)
+    try:
+        bad = native_geometry(rng, 2 if B.tier == "quick" else 20)
+    except (IndexError, ValueError, KeyError) as e:     # tables of the wrong shape / a derivation that raises on a valid map
+        bad = [("derivation raised or returned tables of inconsistent shape", repr(e)[:200])]
     B.case("random_site_tables", not bad, detail=bad[:5])
     # shipped pair: same probe in old (shank map) and 2023-04 (geometry map) encodings
     hnew = spikeglx.read_geometry(os.path.join(FIX, "sample3B_version202304.ap.meta"))
